@@ -898,6 +898,11 @@ class PythonPrimitiveToStoneDecoder:
                 raise bv.ValidationError("expected null, got value")
             return None
         else:
+            if (isinstance(data_type, (bv.Integer, bv.Real)) and
+                    isinstance(val, bool)):
+                # A JSON boolean is not a number (in Python, bool is an int).
+                raise bv.ValidationError(
+                    'expected number, got %s' % bv.generic_type_name(val))
             if validate:
                 if (self.caller_permissions.permissions and
                         hasattr(data_type, 'validate_with_permissions')):
